@@ -283,8 +283,15 @@ def run_session(sid, seed, spec):
             return dict(tag="zero", v=[])
         if v is one:
             return dict(tag="one", v=[])
-        return dict(tag="val", v=v.residues())
+        res = v.residues()
+        if len(res) != shape[0] or any(len(r_) != shape[1] for r_ in res):
+            # an element of the WRONG SHAPE (e.g. the adjoint of another block): the marker keeps the trace
+            # spec total -- the cell fails its own equation instead of crashing TLC's matrix operators
+            shape_errors.append((len(res), len(res[0]) if res else 0, *shape))
+            return dict(tag="val", v=[[[-1, -1] for _ in range(shape[1])] for _ in range(shape[0])])
+        return dict(tag="val", v=res)
 
+    shape_errors = []
     tab, lotab = {}, {}
     for nm in names + inp_names:
         lst, lol = [], []
@@ -331,7 +338,7 @@ def run_session(sid, seed, spec):
                haslo=1 if numeric else 0, lotab=lotab)
     meta = dict(algo=algo_name, nb=nb, sizes=sizes, k=k, N=N, masked=spec["masked"], flags=spec["flags"],
                 hermitian=hermitian, generic_zeroth=spec.get("generic_zeroth", False), cells=len(work),
-                numeric=numeric, lo_block=spec.get("lo_block"))
+                numeric=numeric, lo_block=spec.get("lo_block"), wrong_shape_cells=len(shape_errors))
     return ses, meta
 
 
